@@ -463,3 +463,31 @@ for _id, _d in {
     for _e in E:
         if _e['id'] == _id:
             _e['duplicate_reports'] += _d
+
+add('C19-refused-oob-leaves-the-session-locked', 'mw3_19', 2, 'C19',
+    "SendOOB's oversize error path returns with the session mutex held (defer Unlock replaced by an explicit unlock further down)",
+    change="sess.go SendOOB: defer s.mu.Unlock() removed, s.mu.Unlock() placed after the early 'payload too large' return",
+    needs="one SendOOB with GetOOBMaxSize()+1 bytes, followed by any further use of the session",
+    checks={'C19 quick': "caught: 16 runs, C19/hang/deadlock:library-mutex-never-released (after the worker's own hang watchdog was added; before, the runs hung until the supervisor's watchdog killed the workers and the check exited 2 - 'harness trouble' - instead of reporting a violation)"},
+    notes="First evaluation: the check NOTICED (every run with an oversize SendOOB hung: a goroutine blocked on a sync.Mutex is not a durable block, so virtual time and synctest.Wait stop) but could only say 'watchdog killed worker(s)', exit 2. Added: a real-time watchdog inside the worker (outside the bubble) that, when a run does not come back within the plan's per-run limit, dumps every goroutine, journals HANG and exits; the supervisor reads the dump and, if goroutines of the library - or the harness's own state hook - wait for a library mutex that no running goroutine holds, reports <property>/hang/deadlock:... for the properties whose statement a permanent standstill violates (C02, C03, C11, C13, C15, C19), with a replay by seed; after four such runs the rest of the batch is skipped (every hang costs the full limit). Any other hang stays harness trouble (exit 2).")
+
+add('C15-post-processing-never-rearms-its-close-signal', 'mw3_15', 1, 'C15',
+    "postProcess no longer re-arms its die channel after draining: once it has seen Close with packets still queued it blocks for ever",
+    change="sess.go postProcess: the 'chDie = s.die' reset at the end of the request arm removed",
+    needs="Close racing with in-flight outgoing packets (a slow transport, or Close's own final flush)",
+    checks={'C15 quick': 'caught: 453 runs, C15/leak/goroutine-survives-close ((*UDPSession).postProcess still exists after sessions, listener and transport were closed)'})
+
+add('C11-output-blocks-when-the-device-queue-is-full', 'mw3_11', 2, 'C11',
+    "the KCP output callback waits for room in the per-session device queue instead of dropping the packet: it runs under the session mutex, which the listener's only receive goroutine needs",
+    change="sess.go newUDPSession (output callback): the 'default:' drop branch of the select on chPostProcessing removed",
+    needs="one session with a large send window throttled by SetRateLimit, more than 2048 packets queued on it, inbound traffic from that peer, then traffic for another peer",
+    checks={'C11 quick': 'missed (needs a 2048-packet device queue filled behind a rate limiter; the multi-peer scenario keeps per-session tuning at its defaults)'},
+    notes="Not pursued: reaching the state costs several thousand queued datagrams per run. Recorded as a miss. (Its first evaluation ran on a worktree from before fix 93f1d1b and reported that defect's signatures; re-evaluated on the fixed tree: 0 violations.)")
+
+add('C19-closed-session-still-reads-one-packet', 'mw3_19', 1, 'C19',
+    "defaultReadLoop tests 'session closed?' before the blocking read instead of after it: on a caller-owned PacketConn the next packet to arrive is still processed by the closed session",
+    change="readloop.go defaultReadLoop: if s.isClosed() { return } moved from after ReadFrom to the top of the loop",
+    needs="a caller-owned PacketConn (NewConn3), Close of the session, a NEW session on the same conn, and the first packet after the Close being an out-of-band message",
+    also=['C15'],
+    checks={'C19 quick': 'missed', 'C15 quick': 'missed'},
+    notes="Not pursued: the harness gives every session a PacketConn of its own, so no second session ever shares a conn with a closed one's parked read loop. Recorded as a miss.")
